@@ -665,7 +665,7 @@ def source_outcome(src: str):
             return False
         tok = e.token
         if tok is not None and tok.start >= 0 and tok.source == src:
-            return 0 <= tok.start < max(len(src), 1)
+            return 0 <= tok.start < max(len(src), 1) and tok.start <= tok.stop <= max(len(src), 1)
         return True
     except Exception:  # noqa: BLE001
         return False
@@ -688,3 +688,94 @@ def d_source_symbolic(p: int, suffix: str, N: int, ALPHA: str) -> bool:
     if _STANDIN_VALIDATION is not None:
         raise HarnessAbort(f"lexer pattern stand-in differs from the compiled pattern: {_STANDIN_VALIDATION}")
     return source_outcome(PREFIXES[p] + suffix)
+
+
+# --------------------------------------------------------------------------------------
+# D-C02-edit: single-edit mutants of valid templates, the edited character chosen by the solver
+# --------------------------------------------------------------------------------------
+VALID = [
+    "a{{ v | upcase }}b",
+    "{% if a %}x{% else %}y{% endif %}",
+    "{% for i in a %}{{ i }}{% endfor %}",
+    "{{ a[0] }}{{ v.size }}",
+    "{% assign z = 'q' %}{{ z }}",
+    "{% liquid\necho v\n%}",
+    "{{ \"${v}\" }}{# c #}",
+    "{% raw %}{{ r }}{% endraw %}",
+    "{%- case v -%}{% when 'x' %}1{% endcase %}",
+    "{{ (1..3) | join: '-' }}",
+    "{% render 'p', v: 1 %}",
+    "{{ v if a else 'n' }}",
+]
+EDIT_ALPHA = "{}%#a'\"|.[]- \n1:"
+
+
+def _edited(t: int, kind: int, pos: int, ch: str) -> str:
+    src = VALID[t]
+    if kind == 0:
+        return src[:pos] + ch + src[pos + 1 :]
+    if kind == 1:
+        return src[:pos] + ch + src[pos:]
+    return src[:pos] + src[pos + 1 :]
+
+
+@cond(
+    pre=["0 <= pos <= 44", "len(ch) == 1", "in_alpha(ch, EDIT_ALPHA)"],
+    timeout=2400,
+    tiers=("thorough",),
+    shard={"t": list(range(len(VALID))), "kind": [0, 1]},
+    covers="single-edit mutants of a valid corpus: one character replaced by, or inserted as, any character of the Liquid-biased alphabet at any position (the character is a solver variable): Environment.from_string + render raise only LiquidError, renderable, with a position inside the source",
+    bounds="12 valid templates (every lexer state) x {replace, insert} x every position x 16-character alphabet { } % # a ' \" | . [ ] - space LF 1 :; all compiled lexer patterns replaced by the validated pure-Python stand-ins (harness/pymatch.py)",
+    stubs=("all 13 compiled lexer patterns := pure-Python stand-ins (harness/pymatch.py), validated against the real patterns at import",),
+)
+def d_single_edit(t: int, kind: int, pos: int, ch: str) -> bool:
+    if _STANDIN_VALIDATION is not None:
+        raise HarnessAbort(f"lexer pattern stand-in differs from the compiled pattern: {_STANDIN_VALIDATION}")
+    src = VALID[t]
+    if pos > len(src) - (0 if kind == 1 else 1):
+        return True
+    pos = concrete_int(pos, 0, len(src))
+    return source_outcome(_edited(t, kind, pos, ch))
+
+
+@cond(
+    pre=["0 <= t < len(VALID)", "0 <= pos <= 44"],
+    timeout=300,
+    covers="single-deletion mutants of the valid corpus (template and position chosen by the solver, real regex lexer): parse + render raise only LiquidError, renderable, with a position inside the source",
+    bounds="12 valid templates x every position",
+    grid=lambda: [(t, p) for t in range(len(VALID)) for p in range(len(VALID[t]))],
+)
+def d_single_delete(t: int, pos: int) -> bool:
+    t = concrete_int(t, 0, len(VALID) - 1)
+    if pos >= len(VALID[t]):
+        return True
+    pos = concrete_int(pos, 0, len(VALID[t]) - 1)
+    src = _edited(t, 2, pos, "")
+
+    def run():  # type: ignore[no-untyped-def]  # the source is concrete: real lexer, outside the tracer
+        try:
+            _LIT_ENV.from_string(src).render(a=[1, 2], v="x")
+        except LiquidError as e:
+            return _render_error(e) and (e.token is None or e.token.start < 0 or e.token.source != src or 0 <= e.token.start < max(len(src), 1))
+        except Exception:  # noqa: BLE001
+            return False
+        return True
+
+    return untraced(run)
+
+
+@cond(
+    grid_only=True,
+    covers="native enumeration of every single-character replacement and insertion over the 16-character alphabet in the 12 valid templates, with the real regex lexer (the solver-decided form is d_single_edit in the thorough tier)",
+    bounds="12 templates x 2 edit kinds x every position x 16 characters, natively",
+    grid=lambda: [(t, k, p, c) for t in range(len(VALID)) for k in (0, 1) for p in range(len(VALID[t]) + k) for c in EDIT_ALPHA],
+)
+def g_single_edit(t: int, kind: int, pos: int, ch: str) -> bool:
+    src = _edited(t, kind, pos, ch)
+    try:
+        _LIT_ENV.from_string(src).render(a=[1, 2], v="x")
+    except LiquidError as e:
+        return _render_error(e)
+    except Exception:  # noqa: BLE001
+        return False
+    return True
